@@ -215,6 +215,19 @@ PROPS["C13"] = dict(
 )
 
 
+# --------------------------------------------------------------------------- C29
+PROPS["C29"] = dict(
+    functions=["the seven closures installed by revm::inspector_handle_register on handler.execution.{create, call, eofcreate, insert_eofcreate_outcome, "
+               "insert_call_outcome, insert_create_outcome, last_frame_return} (crates/revm/src/inspector/handler_register.rs)"],
+    bounds="every entry->return path of each closure's (acyclic) MIR control-flow graph, unwind edges excluded: frame closures push exactly one entry on their input "
+           "stack (also on the inspector-short-circuit path and when the inner handler returns an error), outcome closures and last_frame_return pop exactly one",
+    outside="that the call loop pairs each frame closure with exactly one outcome closure (Evm::run_the_loop), that the popped entry is the matching one (LIFO nesting "
+            "follows from the pairing), step/step_end bracketing, log and selfdestruct notifications",
+    assumptions=["push/pop sites are the Vec::<Box<CallInputs|CreateInputs|EOFCreateInputs>>::{push,pop} calls", "branch conditions abstracted to free choices",
+                 "z3 4.8.12 and cvc5 1.0 agree; a sat path is replayed by a transaction with nested calls/creates under a counting inspector (native tool)"],
+    jobs=[dict(name="e3::inspector_stack_balance", fn=jobs_e3.run_inspector_balance)],
+)
+
 # --------------------------------------------------------------------------- C31
 PROPS["C31"] = dict(
     functions=["revm::Evm::{transact, transact_preverified, preverify_transaction} and the error-hook closures they pass to Result::inspect_err (crates/revm/src/evm.rs)"],
@@ -389,6 +402,13 @@ CLAIMS = {
              "Trusted: Kani/CBMC/CaDiCaL, the EIP transcription in the harness.",
         technique="Kani/CBMC bounded model checking of the real gas functions against EIP reference formulas (full 64/256-bit domains, symbolic SpecId)",
         design_ref="DESIGN.md §5 C14"),
+    "C29": dict(
+        text="Each closure the inspector register installs around frame creation and frame return is searched over all its control-flow paths (z3 and cvc5) for one on "
+             "which its input stack is pushed / popped a net number of times other than +1 / -1 - including the path on which the inspector supplies the outcome itself. "
+             "A model is replayed by running nested calls and a create under a counting inspector, with and without short-circuiting.",
+        note="Partial: per-closure balance only; the pairing of closures by the call loop, step bracketing and log reporting are outside.",
+        technique="SMT path search (z3+cvc5) over the MIR control-flow graphs of the inspector closures with push/pop counting; native replay with a counting inspector",
+        engine="smt-mir", design_ref="DESIGN.md §5 C29"),
     "C31": dict(
         text="The three public entry points that run or pre-verify a transaction are searched over all control-flow paths (z3 and cvc5) for an exit - normal or through `?` - "
              "whose last context-touching call is not followed by Evm::clear(); error hooks passed to inspect_err are analysed the same way (they must clear on every "
@@ -407,7 +427,7 @@ CLAIMS = {
         engine="kani-cbmc + smt-mir",
         design_ref="DESIGN.md §5 C32"),
 }
-SMT_SERVES = {"C32", "C07", "C22", "C20", "C21", "C05", "C10", "C09", "C08", "C31"}
+SMT_SERVES = {"C32", "C07", "C22", "C20", "C21", "C05", "C10", "C09", "C08", "C31", "C29"}
 
 # --------------------------------------------------------------------------- not applicable (reason shown in MANIFEST.json)
 NOT_APPLICABLE = {
